@@ -7,7 +7,8 @@ import traceback
 
 from vlib import specgen as G, cosim, svsim, svselfcheck
 
-TR_KNOBS = {"widths": [1, 2, 3, 4, 5, 7, 8, 9, 16, 31, 32, 33, 63, 64], "avoid_const_ops": True, "p_freevar": 0.25, "p_tmp": 0.25, "p_const_struct": 0.35, "p_nested_slice": 0.3, "p_tmp_chain": 0.4, "p_vsl": 0.2, "p_lambda": 0.25, "p_for": 0.6, "p_ite_const": 0.4, "p_list2d": 0.4, "p_list_struct": 0.5, "p_cast": 0.25}
+TR_KNOBS = {"widths": [1, 2, 3, 4, 5, 7, 8, 9, 16, 31, 32, 33, 63, 64], "avoid_const_ops": True, "p_freevar": 0.25, "p_tmp": 0.25, "p_const_struct": 0.35, "p_nested_slice": 0.3, "p_tmp_chain": 0.4, "p_vsl": 0.2, "p_lambda": 0.25, "p_for": 0.6, "p_ite_const": 0.4, "p_list2d": 0.4, "p_list_struct": 0.5, "p_cast": 0.25,
+            "p_for_mixed": 0.7, "p_tmp_loopname": 0.8}
 
 
 def random_inputs(rng, cs, reset):
@@ -250,6 +251,7 @@ def specgen_stream(sh, backend, n, knobs_fn, mech_fn, tag, count="generated_desi
     kn = dict(TR_KNOBS); kn.update(knobs_fn(rng))
     d = G.generate(rng, kn)
     src = G.emit(d)
+    for sk, sv in d.get("stats", {}).items(): sh.count(sk, sv)
     mod = G.load_source(src, "tr")
     try:
       top = getattr(mod, d["top"])(); top.elaborate()
@@ -297,6 +299,41 @@ def hetero_stream(sh, backend, n, mech_fn):
     r = directed(sh, backend, f"hetero-{case}", src, "HTop", mech_fn)
     sh.count("hetero_list_designs")
     if sh.counters.get("rejected_by_translator", 0) > before: sh.count("hetero_list_designs_refused")
+
+
+def gen_localname_design(rng):
+  """python scoping of local names inside ONE update block: a name is a temporary and (before or after that) the index of a for
+  loop, two loops reuse one index name, a temporary is re-assigned between its uses.  All of it is plain python, so the pymtl3
+  simulation simply runs it; the emitted text has to compute the same."""
+  n = rng.randrange(2, 7); w = rng.choice([4, 8, 16]); iw = max(1, (n - 1).bit_length()) + rng.choice([0, 0, 1])
+  nm = rng.choice(["i", "j", "k", "idx", "n"]); op = rng.choice(["+", "^", "-"]); c = rng.randrange(1, 1 << min(w, 6))
+  sel = f"s.sel" if iw == max(1, (n - 1).bit_length()) else f"s.sel"
+  tmp = [f"{nm} = s.sel", f"s.pick @= s.in_[{nm}]"] if (1 << iw) <= n or iw == (n - 1).bit_length() and (1 << iw) == n else \
+        [f"{nm} = s.sel", f"s.pick @= s.in_[0] {op} zext({nm}, {w})" if iw < w else f"s.pick @= s.in_[0] {op} trunc({nm}, {w})" if iw > w else f"s.pick @= s.in_[0] {op} {nm}"]
+  loop = [f"for {nm} in range({n}):", f"  s.out[{nm}] @= s.in_[{nm}] {op} {c}"]
+  loop2 = [f"for {nm} in range({n - 1}):", f"  s.out2[{nm}] @= s.in_[{nm} + 1] {op} s.in_[{nm}]", f"s.out2[{n - 1}] @= s.in_[0]"]
+  retmp = [f"{nm} = s.sel {op} {min(c, (1 << iw) - 1)}", f"s.pick2 @= zext({nm}, {max(w, iw)})" if iw < max(w, iw) else f"s.pick2 @= {nm}"]
+  shape = rng.choice(["tmp-then-loop", "loop-then-tmp", "loop-loop", "tmp-loop-tmp", "loop-tmp-loop"])
+  body = {"tmp-then-loop": tmp + loop + loop2[-1:] + ["s.pick2 @= 0"] + [f"for q in range({n - 1}): s.out2[q] @= s.in_[q]"],
+          "loop-then-tmp": loop + tmp + loop2[-1:] + ["s.pick2 @= 0"] + [f"for q in range({n - 1}): s.out2[q] @= s.in_[q]"],
+          "loop-loop": loop + loop2 + ["s.pick @= s.in_[0]", "s.pick2 @= 1"],
+          "tmp-loop-tmp": tmp + loop + retmp + loop2[-1:] + [f"for q in range({n - 1}): s.out2[q] @= s.in_[q]"],
+          "loop-tmp-loop": loop + tmp + loop2 + ["s.pick2 @= 2"]}[shape]
+  L = ["from pymtl3 import *", "class LNTop(Component):", "  def construct(s):",
+       f"    s.sel = InPort({iw}); s.in_ = [InPort({w}) for _ in range({n})]",
+       f"    s.out = [OutPort({w}) for _ in range({n})]; s.out2 = [OutPort({w}) for _ in range({n})]",
+       f"    s.pick = OutPort({w}); s.pick2 = OutPort({max(w, iw)})", "    @update", "    def up():"] + ["      " + x for x in body]
+  return "\n".join(L) + "\n", shape
+
+
+def localname_stream(sh, backend, n, mech_fn):
+  for case in range(n):
+    rng = sh.rng("localname", case)
+    src, shape = gen_localname_design(rng)
+    before = sh.counters.get("rejected_by_translator", 0)
+    directed(sh, backend, f"localname-{case}", src, "LNTop", mech_fn)
+    if sh.counters.get("rejected_by_translator", 0) > before: sh.count("localname_designs_refused"); sh.count("localname_refused:" + shape)
+    else: sh.count("localname_designs_cosimulated"); sh.count("localname:" + shape)
 
 
 def directed(sh, backend, name, src, topname, mech_fn, ncyc=12):
